@@ -15,7 +15,8 @@ TECHNIQUE = ("explicit-state breadth-first search over mouse/key event histories
              "model on every transition and on the hand-over to modal-parameter extraction at every state")
 LEVEL_TEXT = ("every event history up to the stated depth over the stated click grid is driven through the real dialog and compared with the "
               "list-of-pairs model after every event; in every state reached the dialog is closed and the pairs handed to extraction and the "
-              "extracted modes are compared with the model; the dialog is opened with the default frequency band and with non-default bands "
+              "extracted modes (frequency, order, damping and mode shape) are compared with the model, over pole tables with closely spaced poles in one model-order "
+              "column and with the rtol argument of mpe_from_plot not passed, tiny and large; the dialog is opened with the default frequency band and with non-default bands "
               "(clicks and poles outside the band) - the band variants over a smaller click alphabet; and on an algorithm object that ALREADY "
               "HOLDS modes of an earlier extraction (a plain mpe() or an earlier interactive session that left poles selected) a second session "
               "is enumerated in the same way over a small click alphabet, and what the algorithm holds after that second session (every field of "
@@ -33,6 +34,12 @@ ASSUMPTIONS = [
     "retained poles / frequency lines outside on one or on both sides; the band only sets the initial view (the toolbar pans and zooms, so the abscissa of "
     "a click is not bound by it) and the model does not know it: nearest means nearest to the click. Clicks outside the band are delivered with their "
     "data coordinates like all other clicks (event.xdata set, the view itself is not moved)",
+    "closely spaced poles and the rtol argument of mpe_from_plot (stabilisation chart): the designed pole table holds, in one model-order column, pairs of "
+    "retained poles 0.22 % (9.1 / 9.12 Hz, order 3) and 1.5 % (2.0 / 1.97 Hz, order 1) apart, the members of a pair stored in different rows (row order is "
+    "eigenvalue order, not frequency order) and click abscissae nearest to the member in the later row and to the member in the earlier row; rtol is a "
+    "variant axis: not passed (the defaults 1e-2 of SSI and 5e-2 of pLSCF), 1e-6 and 0.1. The picked frequencies are exact table entries, so the modes "
+    "held after the session (Fn, Xi, order_out and the columns of Phi) must be those of the picked poles whatever rtol is; outcome counters show that picked "
+    "poles with a neighbour within rtol in an earlier and in a later row were extracted, per algorithm family and rtol",
     "whether the algorithm object already holds modes when the dialog is opened is a variant axis ('prior'): none (a fresh object, all variants above), "
     "'mpe' (setup.mpe(name, ...) with designed frequencies stored two modes) or 'session' (an earlier dialog session on the same object closed with two "
     "poles / lines selected, picked in descending frequency order at two model orders). The judged history is the SECOND session; besides the lock-step "
@@ -42,9 +49,12 @@ ASSUMPTIONS = [
 ]
 
 # ---- designed tables --------------------------------------------------------------------------
-FN = np.array([[np.nan, 5.0, 5.1, 5.05], [np.nan, np.nan, 9.0, 9.1], [np.nan, 2.0, np.nan, 2.05]])
-XI = np.where(np.isnan(FN), np.nan, 0.01 * (1 + np.arange(12).reshape(3, 4)))
-PHI = np.where(np.isnan(FN)[:, :, None], np.nan, (np.arange(24).reshape(3, 4, 2) + 1.0)).astype(complex)
+# The last row holds CLOSELY SPACED neighbours of poles of the rows above, in the same model-order column (rows are in eigenvalue order, not
+# in frequency order): 9.12 Hz next to 9.1 Hz at order 3 (0.22 % apart; the click at 9.3 is nearest to the one in the LATER row, the click at
+# 9.04 to the one in the EARLIER row) and 1.97 Hz next to 2.0 Hz at order 1 (1.5 % apart; nearest only to the clicks at 0.0).
+FN = np.array([[np.nan, 5.0, 5.1, 5.05], [np.nan, np.nan, 9.0, 9.1], [np.nan, 2.0, np.nan, 2.05], [np.nan, 1.97, np.nan, 9.12]])
+XI = np.where(np.isnan(FN), np.nan, 0.01 * (1 + np.arange(FN.size).reshape(FN.shape)))
+PHI = np.where(np.isnan(FN)[:, :, None], np.nan, (np.arange(2 * FN.size).reshape(FN.shape + (2,)) + 1.0)).astype(complex)
 PHI[~np.isnan(FN)] /= PHI[~np.isnan(FN)][:, [1]]
 LAB = np.where(np.isnan(FN), 0, 1)
 XS = [2.1, 5.02, 9.04, 9.3]
@@ -56,27 +66,31 @@ NF = 33
 FREQ = np.linspace(0, FS / 2, NF)
 # variant = (dialog kind, ordmin, frequency band the dialog is opened with; None = the default band (0, fs/2))
 # The band variants: (3, 7) leaves click abscissae AND poles outside on both sides (only the 5.x Hz poles are inside);
-# (0, 8.5) leaves the 9.0 / 9.1 Hz poles and the clicks at 9.04 / 9.3 outside on the upper side only;
+# (0, 8.5) leaves the 9.0 / 9.1 / 9.12 Hz poles and the clicks at 9.04 / 9.3 outside on the upper side only;
 # (2.5, 9.2) leaves the clicks at 0.0 / 2.1 (and the frequency lines / poles below 2.5 Hz) outside below, and above the click at 9.3 and
 # the lines from 9.375 Hz on. On the singular-value plot every click outside a band has lines outside the band nearest to it.
 # 4th entry = prior: what the algorithm object already holds when the judged dialog session is opened: None = nothing (fresh object),
 # "mpe" = modes of a plain setup.mpe(...), "session" = modes of an earlier dialog session on the same object that left two entries selected
+# 5th entry = the rtol argument of mpe_from_plot (stabilisation chart only): None = not passed (the documented default: 1e-2 for SSI,
+# 5e-2 for pLSCF), else the value passed. The picked poles are exact table entries, so the extracted modes must not depend on it; the
+# designed tables hold neighbours of picked poles within 1e-2, 5e-2 and 0.1 (relative) in the same column, none within 1e-6.
 VARIANTS = {
-    "SSI": ("SSI", 0, None, None),
-    "pLSCF": ("pLSCF", 0, None, None),
-    "FDD": ("FDD", 0, None, None),
-    "SSI-ordmin2": ("SSI", 2, None, None),
-    "SSI-band3-7": ("SSI", 0, (3.0, 7.0), None),
-    "pLSCF-band0-8.5": ("pLSCF", 0, (0.0, 8.5), None),
-    "FDD-band3-7": ("FDD", 0, (3.0, 7.0), None),
-    "FDD-band2.5-9.2": ("FDD", 0, (2.5, 9.2), None),
-    "SSI-after-mpe": ("SSI", 0, None, "mpe"),
-    "SSI-after-session": ("SSI", 0, None, "session"),
-    "pLSCF-after-mpe": ("pLSCF", 0, None, "mpe"),
-    "pLSCF-after-session": ("pLSCF", 0, None, "session"),
-    "FDD-after-mpe": ("FDD", 0, None, "mpe"),
-    "FDD-after-session": ("FDD", 0, None, "session"),
+    "SSI": ("SSI", 0, None, None, None),
+    "pLSCF": ("pLSCF", 0, None, None, None),
+    "FDD": ("FDD", 0, None, None, None),
+    "SSI-ordmin2": ("SSI", 2, None, None, 0.1),
+    "SSI-band3-7": ("SSI", 0, (3.0, 7.0), None, 1e-6),
+    "pLSCF-band0-8.5": ("pLSCF", 0, (0.0, 8.5), None, 1e-6),
+    "FDD-band3-7": ("FDD", 0, (3.0, 7.0), None, None),
+    "FDD-band2.5-9.2": ("FDD", 0, (2.5, 9.2), None, None),
+    "SSI-after-mpe": ("SSI", 0, None, "mpe", None),
+    "SSI-after-session": ("SSI", 0, None, "session", 0.1),
+    "pLSCF-after-mpe": ("pLSCF", 0, None, "mpe", 1e-6),
+    "pLSCF-after-session": ("pLSCF", 0, None, "session", 0.1),
+    "FDD-after-mpe": ("FDD", 0, None, "mpe", None),
+    "FDD-after-session": ("FDD", 0, None, "session", None),
 }
+DEFAULT_RTOL = {"SSI": 1e-2, "pLSCF": 5e-2}     # documented defaults of mpe_from_plot (docstrings of SSI.mpe_from_plot / pLSCF.mpe_from_plot)
 XB = [0.0] + XS      # click abscissae of the band variants
 # the designed earlier extractions of the 'prior' axis. mpe: two poles of model order 2 (in descending order) / the lines of two designed peaks;
 # session: shift, a pick near 5 Hz at model order 3, a pick near 2 Hz at model order 1 (descending frequency, two orders), shift released
@@ -96,6 +110,31 @@ def band_of(variant):
 
 def prior_of(variant):
     return VARIANTS[variant][3]
+
+
+def rtol_of(variant):
+    """The rtol argument passed to mpe_from_plot (None = not passed)."""
+    return VARIANTS[variant][4]
+
+
+def effective_rtol(variant):
+    r = rtol_of(variant)
+    return DEFAULT_RTOL[kind_of(variant)] if r is None else r
+
+
+def close_neighbours(variant, f, o):
+    """Ground truth (designed table only): where the OTHER retained poles of column o within rtol*|f| of the picked pole (f, o) are
+    stored relative to it: a set out of {'earlier-row', 'later-row'}."""
+    col = FN[:, o]
+    rows = [k for k in range(FN.shape[0]) if col[k] == f]
+    if not rows:
+        return set()
+    r, tol = rows[0], effective_rtol(variant) * abs(f)
+    out = set()
+    for k in range(FN.shape[0]):
+        if k != r and not np.isnan(col[k]) and col[k] != f and abs(col[k] - f) <= tol:
+            out.add("earlier-row" if k < r else "later-row")
+    return out
 
 
 def outside(variant, x):
@@ -363,7 +402,10 @@ def open_dialog(ss, variant):
         if kind_of(variant) == "FDD":
             ss.mpe_from_plot("alg", freqlim=band, DF=0.4)
         else:
-            ss.mpe_from_plot("alg", freqlim=band, rtol=1e-6)
+            if rtol_of(variant) is None:
+                ss.mpe_from_plot("alg", freqlim=band)       # the default rtol
+            else:
+                ss.mpe_from_plot("alg", freqlim=band, rtol=rtol_of(variant))
     except Exception as e:
         err = e
     plt.close("all")
@@ -644,10 +686,37 @@ def run_history(variant, events, hist, judge_all=False):
                     except Exception as e:
                         ext = f"unreadable ({e})"
                     want = sorted((f, o, round(float(XI[[k for k in range(FN.shape[0]) if FN[k, o] == f][0], o]), 12)) for f, o in fin)
+                    # ground truth only: do picked poles have neighbours within rtol in their own column, and where are those stored
+                    near = set()
+                    for f, o in fin:
+                        near |= close_neighbours(variant, f, o)
+                    corner = ":neighbour-within-rtol-in-same-column" if near else ""
+                    rt = "default" if rtol_of(variant) is None else rtol_of(variant)
                     if ext != want:
-                        t.violation(f"extracted-modes:{variant}", f"{variant}: extracted {ext}, picked poles are {want} (history {label(len(evs) - 1)})", case)
+                        t.violation(f"extracted-modes:{variant}{corner}", f"{variant}: extracted {ext}, picked poles are {want} (rtol={rt}, history {label(len(evs) - 1)})", case)
                     else:
                         t.outcomes["extracted-ok"] += 1
+                        # the mode shapes stay with their poles: column i of Phi is the designed shape of the pole (Fn[i], order_out[i])
+                        try:
+                            Fn_o, ord_o, Phi_o = np.atleast_1d(r.Fn), np.atleast_1d(r.order_out), np.asarray(r.Phi)
+                            bad_phi = []
+                            for i in range(len(Fn_o)):
+                                row = [k for k in range(FN.shape[0]) if FN[k, int(ord_o[i])] == float(Fn_o[i])][0]
+                                if not np.array_equal(np.asarray(Phi_o[:, i]), PHI[row, int(ord_o[i]), :]):
+                                    bad_phi.append((float(Fn_o[i]), int(ord_o[i]), np.asarray(Phi_o[:, i]).tolist(), PHI[row, int(ord_o[i]), :].tolist()))
+                        except Exception as e:
+                            bad_phi = [f"unreadable ({type(e).__name__}: {e})"]
+                        if bad_phi:
+                            t.violation(f"extracted-shapes:{variant}{corner}",
+                                        f"{variant}: the mode shapes extracted are not those of the picked poles: (Fn, order, Phi held, Phi of the pole) = {bad_phi[:2]} "
+                                        f"(rtol={rt}, history {label(len(evs) - 1)})", case)
+                        else:
+                            t.outcomes["extracted-shapes-ok"] += 1
+                            # vacuity monitors of the closely-spaced-poles corner
+                            for w in sorted(near):
+                                t.outcomes[f"extracted-ok:picked-pole-has-neighbour-within-rtol-in-{w}"] += 1
+                            if near:
+                                t.outcomes[f"extracted-ok:neighbour-within-rtol:{kind_of(variant)}:rtol-{rt}"] += 1
         t.transitions += 0
     picks = [e for e, ok in zip(evs, [True] * len(evs)) if e[0] == "click" and e[1] == 1]
     if "final" in out:
@@ -686,7 +755,8 @@ def explore(ctx):
     ctx.bounds = {"tables": {"Fn_poles": FN, "freq_lines_FDD": NF}, "click_x": XS, "click_y": YS, "click_x_band_variants": XB,
                   "prior_axis": {"mpe": PRIOR_MPE, "session": [list(e) for e in PRIOR_SESSION], "judged": "second session; result fields, hand-over and exception type against the same history on a fresh object"},
                   "variants": [
-        {"variant": v, "dialog": kind_of(v), "freqlim": band_of(v) or "default (0, fs/2)", "algorithm_object_already_holds": prior_of(v) or "nothing (fresh)", "events": [list(e) for e in events_for(v, ctx.thorough)], "merged_bfs_depth": d, "unmerged_depth": u} for v, d, u in plan]}
+        {"variant": v, "dialog": kind_of(v), "freqlim": band_of(v) or "default (0, fs/2)",
+         "rtol": "n/a" if kind_of(v) == "FDD" else ("not passed (default)" if rtol_of(v) is None else rtol_of(v)), "algorithm_object_already_holds": prior_of(v) or "nothing (fresh)", "events": [list(e) for e in events_for(v, ctx.thorough)], "merged_bfs_depth": d, "unmerged_depth": u} for v, d, u in plan]}
     for variant, depth, ud in plan:
         events = events_for(variant, ctx.thorough)
         _CFG.update(variant=variant, events=events)
@@ -699,6 +769,10 @@ def explore(ctx):
             ctx.tally.violation(f"hidden-state:{variant}", f"histories {h0} and {h1} reach the same dialog state but differ after events {evs}",
                                 {"variant": variant, "events": [events[i] for i in h1], "other": [events[i] for i in h0]})
     ctx.require("pick", "pick-on-empty-order", "deselect-one", "deselect-nearest", "click-without-modifier", "handover-ok", "extracted-ok",
+                "extracted-shapes-ok", "extracted-ok:picked-pole-has-neighbour-within-rtol-in-earlier-row",
+                "extracted-ok:picked-pole-has-neighbour-within-rtol-in-later-row",
+                "extracted-ok:neighbour-within-rtol:SSI:rtol-default", "extracted-ok:neighbour-within-rtol:SSI:rtol-0.1",
+                "extracted-ok:neighbour-within-rtol:pLSCF:rtol-default",
                 "pick-outside-band", "pick-of-pole-outside-band", "deselect-nearest-outside-band", "deselect-nearest-outside-band-among-several",
                 "used-object:holds-modes-of-earlier-mpe", "used-object:holds-modes-of-earlier-session", "used-object:held-and-handed-same-as-fresh",
                 "used-object:session-ends-with-empty-selection", "used-object:session-ends-with-nonempty-selection", "used-object:everything-deselected-again")
